@@ -76,7 +76,11 @@ class Env:
       if e.kind in ("function", "comp") and name in e.locals \
           and name not in e.globals and name not in e.nonlocals:
         if name in e.vars:
-          return e.vars[name]
+          v = e.vars[name]
+          if isinstance(v, _Unhavoced):
+            raise Undecided(f"loop contract of {v.tag} does not havoc the loop-carried variable '{v.name}' (the body assigns it "
+                            "and reads it before assigning it): the contract must be extended")
+          return v
         # unbound local: CPython raises UnboundLocalError
         c = _ctx.CUR
         if c is not None:
@@ -85,7 +89,10 @@ class Env:
           raise PathEnd()
         raise UnboundLocalError(name)
       if name in e.vars and not (first and name in e.globals):
-        return e.vars[name]
+        v = e.vars[name]
+        if isinstance(v, _Unhavoced):
+          raise Undecided(f"loop contract of {v.tag} does not havoc the loop-carried variable '{v.name}': the contract must be extended")
+        return v
       first = False
       e = e.parent
     if name in interp.builtins:
@@ -263,6 +270,44 @@ class IModule:
 
   def __repr__(self):
     return f"<IModule {self.__env__.qual}>"
+
+
+class _Unhavoced:
+  """Placed by the loop rules in a variable that the loop body assigns but the loop contract's havoc left untouched:
+  reading it (before the body re-assigns it) would silently use its PRE-LOOP value for an arbitrary iteration."""
+
+  def __init__(self, name, tag):
+    self.name, self.tag = name, tag
+
+
+def _stored_names(stmts):
+  out = set()
+
+  class V(ast.NodeVisitor):
+
+    def visit_Name(self, n):
+      if isinstance(n.ctx, (ast.Store, ast.Del)):
+        out.add(n.id)
+
+    def visit_FunctionDef(self, n):
+      out.add(n.name)
+
+    visit_AsyncFunctionDef = visit_FunctionDef
+
+    def visit_Lambda(self, n):
+      pass
+
+    def visit_ClassDef(self, n):
+      out.add(n.name)
+
+    def visit_ListComp(self, n):
+      pass
+
+    visit_SetComp = visit_DictComp = visit_GeneratorExp = visit_ListComp
+
+  for st in stmts:
+    V().visit(st)
+  return out
 
 
 class LoopContract:
@@ -867,7 +912,7 @@ class Frame:
     tag = f"{self.qual}.loop{node._ord}"
     c.oblige(f"{tag}.inv-entry", self._inv(lc, None), kind="invariant")
     if c.choose(tag):
-      lc.havoc(self.env.vars, None)
+      self._havoc(lc, None, node, tag)
       c.assume(self._inv(lc, None))
       if not truthy(self.eval(node.test)):
         raise PathEnd()
@@ -879,11 +924,21 @@ class Frame:
         return
       c.oblige(f"{tag}.inv-preserved", self._inv(lc, None), kind="invariant")
       raise PathEnd()
-    lc.havoc(self.env.vars, None)
+    self._havoc(lc, None, node, tag)
     c.assume(self._inv(lc, None))
     if truthy(self.eval(node.test)):
       raise PathEnd()
     self.exec_block(node.orelse)
+
+  def _havoc(self, lc, k, node, tag):
+    names = _stored_names(node.body)
+    if isinstance(node, ast.For):
+      names |= _stored_names([ast.Expr(value=node.target)]) if False else {n.id for n in ast.walk(node.target) if isinstance(n, ast.Name)}
+    before = {nm: self.env.vars[nm] for nm in names if nm in self.env.vars}
+    lc.havoc(self.env.vars, k)
+    for nm, old in before.items():
+      if nm in self.env.vars and self.env.vars[nm] is old and not isinstance(old, (IFunction,)) and not callable(old):
+        self.env.vars[nm] = _Unhavoced(nm, tag)
 
   def _inv(self, lc, k):
     try:
@@ -918,7 +973,7 @@ class Frame:
     if c.choose(tag):
       k = sym.SInt(c.fresh_int("k"))
       c.assume(sym.sand(k >= 0, k < n))
-      lc.havoc(self.env.vars, k)
+      self._havoc(lc, k, node, tag)
       c.assume(self._inv(lc, k))
       self.assign(node.target, seq._pyvc_at(k))
       try:
@@ -929,7 +984,7 @@ class Frame:
         return
       c.oblige(f"{tag}.inv-preserved", self._inv(lc, k + 1), kind="invariant")
       raise PathEnd()
-    lc.havoc(self.env.vars, n)
+    self._havoc(lc, n, node, tag)
     c.assume(self._inv(lc, n))
     self.exec_block(node.orelse)
 
